@@ -101,6 +101,11 @@ def lean_prepare(prop, tier):
         except Exception:
             st.gen_report = {"error": out[-2000:]}
         needed = generated_deps(prop)
+        if "kernels" not in st.gen_report or rc != 0:
+            # the generator itself failed (it reports per-kernel failures in its JSON line and exits 0 otherwise): nothing
+            # was regenerated, so no theorem about a Generated module is tied to the current source
+            msg = "harness/gen.py failed (rc=%s): %s" % (rc, str(st.gen_report.get("error", out))[-400:].replace("\n", " | "))
+            (st.broken if needed else st.other_notes).append(msg)
         for mod, r in (st.gen_report.get("kernels") or {}).items():
             if not r.get("ok"):
                 msg = "translator: Generated/%s.lean not regenerated (%s)" % (mod, r.get("error"))
